@@ -53,6 +53,7 @@ struct SeqStats {
     close_probes_on_empty_flagged: u64,
     close_bank_ok_after_activity: u64,
     max_share_value: f64,
+    tiny_asv_steps: u64,
 }
 
 struct Monitors {
@@ -181,6 +182,12 @@ fn run_case(target: Target, spec: &WorldSpec, ops: &[Op], stats: &mut SeqStats, 
         stats.close_bank_ok_after_activity = m.c02.close_bank_accepted_after_activity;
         for b in post.banks.values() {
             stats.max_share_value = stats.max_share_value.max(crate::num::q_f64(&b.asv)).max(crate::num::q_f64(&b.lsv));
+            {
+                let v = crate::num::q_f64(&b.asv);
+                if v > 0.0 && v < 1.0e-4 {
+                    stats.tiny_asv_steps += 1;
+                }
+            }
         }
         stats.max_positions = stats.max_positions.max(m.c16.max_positions);
         stats.opened_by_tag = m.c16.opened_by_tag.clone();
@@ -249,6 +256,7 @@ pub fn run_target(ctx: &Ctx, target: Target) -> Report {
                 rep.add_extra("disabled_accounts_probed", stats.disabled_probed);
                 rep.add_extra("close_probes_on_empty_frozen_or_disabled_accounts", stats.close_probes_on_empty_flagged);
                 rep.add_extra("close_bank_accepted_after_activity", stats.close_bank_ok_after_activity);
+                rep.add_extra("steps_with_a_deposit_share_value_in_(0,0.0001)", stats.tiny_asv_steps);
                 if stats.max_share_value >= 1.0e4 {
                     rep.label("share-value>=1e4");
                 }
